@@ -205,6 +205,14 @@ def worker(ctx):
             if c <= 5:
                 ops.append(dict(k='seg', text=t, dir=draw(st.integers(0, 7)), enc=draw(st.sampled_from([1, 2, 4])), keep=draw(st.booleans()), font=draw(st.integers(-1, 2)), fv=draw(st.integers(-1, 2))))
             elif c <= 8:
+                if t and draw(st.integers(0, 3)) == 0:
+                    # the lookup just before the probe's first character is its supplementary-plane "shadow" (same low 16 bits): whatever a
+                    # face remembers about its latest lookup must not leak into the next one
+                    shadow = (t[0] & 0xFFFF) + 0x10000 * draw(st.integers(1, 2))
+                    if draw(st.booleans()):
+                        ops.append(dict(k='sup', cp=shadow))
+                    else:
+                        ops.append(dict(k='seg', text=[x for x in t[1:4]] + [shadow], dir=draw(st.integers(0, 1)), enc=draw(st.sampled_from([1, 2, 4])), keep=False, font=-1, fv=-1))
                 ops.append(dict(k='probe', text=t, dir=draw(st.integers(0, 7)), enc=draw(st.sampled_from([1, 2, 4])), font=draw(st.integers(-1, 2)), fv=-1))
             elif c == 9: ops.append(dict(k='destroy_seg', i=draw(st.integers(0, 5))))
             elif c == 10: ops.append(dict(k='font', ppm=draw(st.sampled_from([10.0, 16.5, 1000.0, -12.0, -13.0, -17.5]))))
